@@ -250,6 +250,24 @@ fn do_serve(apis: &Apis, body_max: usize) {
         .expect("runtime");
     let c_fn: Ctx = Arc::new(State { style: "fn", hits: Mutex::new(vec![]) });
     let c_tr: Ctx = Arc::new(State { style: "tr", hits: Mutex::new(vec![]) });
+    // first: what happens when the same API is given to a server that resolves no
+    // versions (the default policy)?  Reported in the hello line; the servers that are
+    // then probed use the header policy.
+    let unversioned = |api: ApiDescription<Ctx>, ctx: Ctx| -> &'static str {
+        rt.block_on(async {
+            let log = slog::Logger::root(slog::Discard, slog::o!());
+            let config = ConfigDropshot { bind_address: "127.0.0.1:0".parse().unwrap(), ..Default::default() };
+            match ServerBuilder::new(api, ctx, log).config(config).start() {
+                Ok(s) => {
+                    let _ = tokio::time::timeout(std::time::Duration::from_secs(5), s.close()).await;
+                    "started"
+                }
+                Err(_) => "refused",
+            }
+        })
+    };
+    let u_fn = unversioned((apis.fns)(), c_fn.clone());
+    let u_tr = unversioned((apis.tr)(), c_tr.clone());
     let (s_fn, s_tr) = rt.block_on(async {
         (
             start((apis.fns)(), c_fn.clone(), body_max),
@@ -262,7 +280,8 @@ fn do_serve(apis: &Apis, body_max: usize) {
         writeln!(
             o,
             "{}",
-            json!({"fn": s_fn.local_addr().to_string(), "tr": s_tr.local_addr().to_string()})
+            json!({"fn": s_fn.local_addr().to_string(), "tr": s_tr.local_addr().to_string(),
+                   "unversioned_start": {"fn": u_fn, "tr": u_tr}})
         )
         .unwrap();
         o.flush().unwrap();
